@@ -72,6 +72,7 @@ type layState struct {
 	rew     map[int]map[string]*rewRule
 	zero    map[string]bool
 	nonzero map[string]bool
+	pend    map[string]*T // stores to fields of the current element inside a placeholder-rewrite loop
 }
 
 func (l *layState) Clone() any {
@@ -88,6 +89,12 @@ func (l *layState) Clone() any {
 	}
 	for k := range l.nonzero {
 		n.nonzero[k] = true
+	}
+	if l.pend != nil {
+		n.pend = map[string]*T{}
+		for k, v := range l.pend {
+			n.pend[k] = v
+		}
 	}
 	return n
 }
@@ -148,6 +155,7 @@ func newLayMachine(c *Ctx) *layMachine {
 	in.H.Loop = m.loop
 	in.H.Cond = m.cond
 	in.H.Post = m.post
+	in.H.Assign = m.assign
 	in.H.Bind = func(in *Interp, st *State, o types.Object, val *T) {
 		if a, ok := seqAtoms(val); ok && val.Op == "seq" && len(a) == 1 && a[0].Seg != nil && a[0].Seg.Name == "" {
 			a[0].Seg.Name = o.Name()
@@ -220,7 +228,40 @@ func (m *layMachine) lenLin(st *State, atoms []*atom) *linForm {
 }
 
 func (m *layMachine) post(in *Interp, st *State, e ast.Expr, t *T) *T {
+	// inside a rewrite loop, seq[n] is the current element
+	if t.Op == "index" && t.Args[0].Op == "seq" && t.Args[1].Op == "var" && t.Args[1].Name == "n" {
+		return tVar(nil, "ELEM")
+	}
 	return nil
+}
+
+func (m *layMachine) assign(in *Interp, st *State, lhs ast.Expr, lv *T, val *T) bool {
+	if lv == nil {
+		return false
+	}
+	isElem := func(t *T) bool {
+		return t.Op == "index" && t.Args[0].Op == "seq" && t.Args[1].Op == "var" && t.Args[1].Name == "n"
+	}
+	ls := m.ls(st)
+	if lv.Op == "field" && (isElem(lv.Args[0]) || (lv.Args[0].Op == "var" && lv.Args[0].Name == "ELEM")) {
+		if ls.pend == nil {
+			ls.pend = map[string]*T{}
+		}
+		ls.pend[lv.Name] = val
+		return true
+	}
+	if isElem(lv) && val.Op == "lit" {
+		if ls.pend == nil {
+			ls.pend = map[string]*T{}
+		}
+		for _, f := range []string{"Code", "A", "B", "C"} {
+			if v := litField(val, f); v != nil {
+				ls.pend[f] = v
+			}
+		}
+		return true
+	}
+	return false
 }
 
 func (m *layMachine) call(in *Interp, st *State, call *ast.CallExpr, name string, recv *T, args []*T) *T {
@@ -505,81 +546,70 @@ func (m *layMachine) loop(in *Interp, st *State, s ast.Stmt) []*State {
 	return []*State{st}
 }
 
-// rewriteLoop recognises
-//   for n, ins := range seg { switch ins.Code { case codeX: seg[n].Code, seg[n].A = codeY, expr } }
-func (m *layMachine) rewriteLoop(in *Interp, st *State, rs *ast.RangeStmt, seg *segment) bool {
+// rewriteLoop executes the body of a loop over one segment's instructions
+// symbolically (n = the index, ELEM = seg[n]) and turns every path that stores to
+// the element under a test `ELEM.Code == codeX` into a rewrite rule of the segment.
+func (m *layMachine) rewriteLoop(in *Interp, st *State, loop ast.Stmt, seg *segment) bool {
 	c := m.c
-	key, _ := rs.Key.(*ast.Ident)
-	val, _ := rs.Value.(*ast.Ident)
-	if key == nil || val == nil || len(rs.Body.List) != 1 {
-		return false
-	}
-	sw, ok := rs.Body.List[0].(*ast.SwitchStmt)
-	if !ok || sw.Tag == nil {
-		return false
-	}
-	tag, ok := unparen(sw.Tag).(*ast.SelectorExpr)
-	if !ok || tag.Sel.Name != "Code" || c.Obj(tag.X) != c.Info.Defs[val] {
-		return false
-	}
-	keyObj := c.Info.Defs[key]
-	ls := m.ls(st)
-	for _, cc := range sw.Body.List {
-		cl := cc.(*ast.CaseClause)
-		if cl.List == nil {
-			if len(cl.Body) > 0 {
-				return false
+	var body *ast.BlockStmt
+	b := st.Clone()
+	m.ls(b).pend = nil
+	switch l := loop.(type) {
+	case *ast.RangeStmt:
+		body = l.Body
+		if key, ok := l.Key.(*ast.Ident); ok && key.Name != "_" {
+			if o := c.Info.Defs[key]; o != nil {
+				b.Vars[o] = tVar(nil, "n")
 			}
+		} else {
+			return false // without the index the loop cannot write back
+		}
+		if val, ok := l.Value.(*ast.Ident); ok && val.Name != "_" {
+			if o := c.Info.Defs[val]; o != nil {
+				b.Vars[o] = tVar(nil, "ELEM")
+			}
+		}
+	default:
+		return false
+	}
+	saveLoop := in.H.Loop
+	in.H.Loop = nil // nested loops inside a rewrite body are not expected
+	res := in.execStmts(body.List, []*State{b})
+	in.H.Loop = saveLoop
+	ls := m.ls(st)
+	any := false
+	for _, r := range res {
+		pend := m.ls(r).pend
+		if len(pend) == 0 {
 			continue
 		}
-		for _, e := range cl.List {
-			from := c.codeConstName(e)
-			if from == "" {
-				return false
+		from := ""
+		for _, cd := range r.Conds[len(st.Conds):] {
+			if cd.Op == "bin" && cd.Name == "==" && cd.Args[0].String() == "ELEM.Code" && cd.Args[1].Op == "const" {
+				from = cd.Args[1].Name
 			}
-			b := st.Clone()
-			b.Vars[keyObj] = tVar(nil, "n")
-			rule := &rewRule{From: from, Node: cl}
-			for _, stm := range cl.Body {
-				as, ok := stm.(*ast.AssignStmt)
-				if !ok || len(as.Lhs) != len(as.Rhs) {
-					return false
-				}
-				for i, l := range as.Lhs {
-					sel, ok := unparen(l).(*ast.SelectorExpr)
-					if !ok {
-						return false
-					}
-					ix, ok := unparen(sel.X).(*ast.IndexExpr)
-					if !ok || c.Obj(ix.Index) != keyObj {
-						return false
-					}
-					base := in.eval(b, ix.X)
-					if ba, ok := seqAtoms(base); !ok || len(ba) != 1 || ba[0].Seg != seg {
-						return false
-					}
-					v := in.eval(b, as.Rhs[i])
-					switch sel.Sel.Name {
-					case "Code":
-						if v.Op != "const" {
-							return false
-						}
-						rule.To = v.Name
-					case "A":
-						rule.A = v
-					default:
-						return false
-					}
-				}
+			if cd.Op == "bin" && cd.Name == "==" && cd.Args[1].String() == "ELEM.Code" && cd.Args[0].Op == "const" {
+				from = cd.Args[0].Name
 			}
-			if rule.To == "" || rule.A == nil {
-				return false
-			}
-			if ls.rew[seg.ID] == nil {
-				ls.rew[seg.ID] = map[string]*rewRule{}
-			}
-			ls.rew[seg.ID][from] = rule
 		}
+		to, a := pend["Code"], pend["A"]
+		if from == "" || to == nil || to.Op != "const" || a == nil {
+			return false
+		}
+		for f := range pend {
+			if f != "Code" && f != "A" {
+				return false
+			}
+		}
+		if ls.rew[seg.ID] == nil {
+			ls.rew[seg.ID] = map[string]*rewRule{}
+		}
+		ls.rew[seg.ID][from] = &rewRule{From: from, To: to.Name, A: a, Node: loop}
+		any = true
+	}
+	_ = any
+	for f := range b.Flags {
+		st.Flags[f] = true
 	}
 	return true
 }
